@@ -326,6 +326,199 @@ theorem listings_nodup {s : State} (hn : Nodup19 s) (o sp : Addr) :
     AMap.NodupKeys (ownerPrefix s o) ∧ AMap.NodupKeys (spenderPrefix s sp) :=
   ⟨nodup_pfx hn.1 o, nodup_pfx hn.2 sp⟩
 
+/-! ## The three views as the *paged query functions* report them
+
+`views_agree` / `listings_agree` above speak of the prefix maps and their unpaged sorted listings.  The
+theorems below speak of what a client actually obtains: the `Allowance` point query and the results of paging
+`AllAllowances { owner }` and `AllSpenderAllowances { spender }` to completion (client loop
+`Paginate.fetchLoop`: request a page, continue from the last returned key, stop at the empty page), with any
+two page sizes.  Completeness of the paging is C20 (`owner_allowances_complete`,
+`spender_allowances_complete`); the invariants are discharged on reachable states, not assumed. -/
+
+open CwPlus.Paginate in
+/-- What a client obtains by paging `AllAllowances { owner }` to completion with page size `limit`. -/
+def ownerListing (s : State) (o : AddrArg) (limit : Option Nat) (fuel : Nat) : List (Addr × Allowance) :=
+  fetchLoop (fun c => CwPlus.Props.C20.okItems (queryOwnerAllowances s o c limit)) (·.1) none fuel
+
+open CwPlus.Paginate in
+/-- What a client obtains by paging `AllSpenderAllowances { spender }` to completion with page size `limit`. -/
+def spenderListing (s : State) (sp : AddrArg) (limit : Option Nat) (fuel : Nat) : List (Addr × Allowance) :=
+  fetchLoop (fun c => CwPlus.Props.C20.okItems (querySpenderAllowances s sp c limit)) (·.1) none fuel
+
+/-- State level: under `Inv19` and distinct keys, the completely paged owner listing and the completely
+paged spender listing are the sorted prefix listings (C20), so an entry `(sp, a)` is reported for owner `o`
+iff `(o, a)` is reported for spender `sp` iff `ALLOWANCES[(o, sp)] = a`, and the point query answers with
+that entry (default `{0, never}` when there is none).  Any two page sizes other than 0, any number of allowed
+requests above the number of entries. -/
+theorem paged_views_agree_of_inv {s : State} (hi : Inv19 s) (hn : Nodup19 s) (o sp : AddrArg)
+    (ho : o.valid = true) (hs : sp.valid = true) (l1 l2 : Option Nat) (h1 : l1 ≠ some 0) (h2 : l2 ≠ some 0)
+    {f1 f2 : Nat} (hf1 : (ownerPrefix s o.text).length + 1 ≤ f1) (hf2 : (spenderPrefix s sp.text).length + 1 ≤ f2)
+    (a : Allowance) :
+    ((sp.text, a) ∈ ownerListing s o l1 f1 ↔ (o.text, a) ∈ spenderListing s sp l2 f2)
+    ∧ ((sp.text, a) ∈ ownerListing s o l1 f1 ↔ s.allow.get? (o.text, sp.text) = some a)
+    ∧ ((o.text, a) ∈ spenderListing s sp l2 f2 ↔ s.allow.get? (o.text, sp.text) = some a)
+    ∧ queryAllowance s o sp = .ok ((s.allow.get? (o.text, sp.text)).getD Allowance.default) := by
+  have e1 : ownerListing s o l1 f1 = Paginate.sortedEntries Paginate.strLt (ownerPrefix s o.text) :=
+    CwPlus.Props.C20.owner_allowances_complete hn.1 o ho l1 h1 hf1
+  have e2 : spenderListing s sp l2 f2 = Paginate.sortedEntries Paginate.strLt (spenderPrefix s sp.text) :=
+    CwPlus.Props.C20.spender_allowances_complete hn.2 sp hs l2 h2 hf2
+  obtain ⟨a1, a2⟩ := listings_agree hi hn o.text sp.text a
+  rw [e1, e2]
+  refine ⟨a1.trans a2.symm, a1, a2, ?_⟩
+  simp [queryAllowance, ho, hs]
+
+/-- **C19, view clause on the query functions (main theorem)**: after any accepted instantiation and any
+finite history of execute messages, for valid `o`, `sp`, any two page sizes other than 0: paging
+`AllAllowances {o}` to completion reports `(sp, a)` iff paging `AllSpenderAllowances {sp}` to completion
+reports `(o, a)` iff the stored allowance of the pair is `a` — and then `Allowance {o, sp}` answers `a`
+(same amount, same expiry); when neither listing has an entry for the pair the point query answers
+`{0, never}` (`unlisted_point_default`).  `Inv19` is discharged by `reach_inv19`, not assumed. -/
+theorem paged_views_agree {m : InstMsg} {s0 : State} (h : instantiate m = .ok s0) (ops : List (Block × Addr × Msg))
+    (o sp : AddrArg) (ho : o.valid = true) (hs : sp.valid = true) (l1 l2 : Option Nat)
+    (h1 : l1 ≠ some 0) (h2 : l2 ≠ some 0) (a : Allowance) :
+    let s := run s0 ops
+    ((sp.text, a) ∈ ownerListing s o l1 ((ownerPrefix s o.text).length + 1)
+        ↔ (o.text, a) ∈ spenderListing s sp l2 ((spenderPrefix s sp.text).length + 1))
+    ∧ ((sp.text, a) ∈ ownerListing s o l1 ((ownerPrefix s o.text).length + 1)
+        ↔ s.allow.get? (o.text, sp.text) = some a)
+    ∧ ((o.text, a) ∈ spenderListing s sp l2 ((spenderPrefix s sp.text).length + 1)
+        ↔ s.allow.get? (o.text, sp.text) = some a)
+    ∧ queryAllowance s o sp = .ok ((s.allow.get? (o.text, sp.text)).getD Allowance.default) := by
+  intro s
+  obtain ⟨hi, hn⟩ := reach_inv19 h ops
+  exact paged_views_agree_of_inv hi hn o sp ho hs l1 l2 h1 h2 (Nat.le_refl _) (Nat.le_refl _) a
+
+/-- The same over histories that interleave execute and `migrate` calls in any order. -/
+theorem paged_views_agree_mixed {m : InstMsg} {s0 : State} (h : instantiate m = .ok s0) (ops : List Op)
+    (o sp : AddrArg) (ho : o.valid = true) (hs : sp.valid = true) (l1 l2 : Option Nat)
+    (h1 : l1 ≠ some 0) (h2 : l2 ≠ some 0) (a : Allowance) :
+    let s := runOps s0 ops
+    ((sp.text, a) ∈ ownerListing s o l1 ((ownerPrefix s o.text).length + 1)
+        ↔ (o.text, a) ∈ spenderListing s sp l2 ((spenderPrefix s sp.text).length + 1))
+    ∧ ((sp.text, a) ∈ ownerListing s o l1 ((ownerPrefix s o.text).length + 1)
+        ↔ s.allow.get? (o.text, sp.text) = some a)
+    ∧ ((o.text, a) ∈ spenderListing s sp l2 ((spenderPrefix s sp.text).length + 1)
+        ↔ s.allow.get? (o.text, sp.text) = some a)
+    ∧ queryAllowance s o sp = .ok ((s.allow.get? (o.text, sp.text)).getD Allowance.default) := by
+  intro s
+  obtain ⟨hi, hn⟩ := reach_inv19_mixed h ops
+  exact paged_views_agree_of_inv hi hn o sp ho hs l1 l2 h1 h2 (Nat.le_refl _) (Nat.le_refl _) a
+
+/-- **C19, "also after migration", on the query functions**: migrate any pre-0.14 state without spender
+map (any allowance table with distinct keys — not only those an old contract could have produced), then run
+any history of execute and further `migrate` calls: the three paged/point views agree as in
+`paged_views_agree`. -/
+theorem paged_views_agree_migrated {s s' : State} (hsp : s.allowSp = []) (hnd : AMap.NodupKeys s.allow)
+    (hv : verLt (s.version.major, s.version.minor, s.version.patch) (0, 14, 0) = true)
+    (h : migrate s = .ok s') (ops : List Op)
+    (o sp : AddrArg) (ho : o.valid = true) (hs : sp.valid = true) (l1 l2 : Option Nat)
+    (h1 : l1 ≠ some 0) (h2 : l2 ≠ some 0) (a : Allowance) :
+    let t := runOps s' ops
+    ((sp.text, a) ∈ ownerListing t o l1 ((ownerPrefix t o.text).length + 1)
+        ↔ (o.text, a) ∈ spenderListing t sp l2 ((spenderPrefix t sp.text).length + 1))
+    ∧ ((sp.text, a) ∈ ownerListing t o l1 ((ownerPrefix t o.text).length + 1)
+        ↔ t.allow.get? (o.text, sp.text) = some a)
+    ∧ ((o.text, a) ∈ spenderListing t sp l2 ((spenderPrefix t sp.text).length + 1)
+        ↔ t.allow.get? (o.text, sp.text) = some a)
+    ∧ queryAllowance t o sp = .ok ((t.allow.get? (o.text, sp.text)).getD Allowance.default) := by
+  intro t
+  obtain ⟨hi, hn⟩ := reach_inv19_migrated_mixed hsp hnd hv h ops
+  exact paged_views_agree_of_inv hi hn o sp ho hs l1 l2 h1 h2 (Nat.le_refl _) (Nat.le_refl _) a
+
+/-- **Listed pairs**: in a state with `Inv19` and distinct keys, if the completely paged owner listing shows
+`(sp, a)` then the point query answers exactly `a` (amount and expiry) — also for an entry drawn down to 0,
+which stays listed with its old expiry. -/
+theorem listed_point_agrees {s : State} (hi : Inv19 s) (hn : Nodup19 s) (o sp : AddrArg)
+    (ho : o.valid = true) (hs : sp.valid = true) (l : Option Nat) (hl : l ≠ some 0) {f : Nat}
+    (hf : (ownerPrefix s o.text).length + 1 ≤ f) (a : Allowance)
+    (hm : (sp.text, a) ∈ ownerListing s o l f) : queryAllowance s o sp = .ok a := by
+  obtain ⟨_, h2, _, h4⟩ := paged_views_agree_of_inv hi hn o sp ho hs l l hl hl hf (Nat.le_refl _) a
+  rw [h4, h2.mp hm]; rfl
+
+/-- **Absent vs. zero**: if the completely paged owner listing has no entry for `sp` at all (never granted, or
+removed by a decrease), the point query answers the default `{0, never}`, and the spender listing has no
+entry for `o` either. -/
+theorem unlisted_point_default {s : State} (hi : Inv19 s) (hn : Nodup19 s) (o sp : AddrArg)
+    (ho : o.valid = true) (hs : sp.valid = true) (l1 l2 : Option Nat) (h1 : l1 ≠ some 0) (h2 : l2 ≠ some 0)
+    {f1 f2 : Nat} (hf1 : (ownerPrefix s o.text).length + 1 ≤ f1) (hf2 : (spenderPrefix s sp.text).length + 1 ≤ f2)
+    (hm : ∀ a, (sp.text, a) ∉ ownerListing s o l1 f1) :
+    queryAllowance s o sp = .ok Allowance.default ∧ ∀ a, (o.text, a) ∉ spenderListing s sp l2 f2 := by
+  have hnone : s.allow.get? (o.text, sp.text) = none := by
+    cases hg : s.allow.get? (o.text, sp.text) with
+    | none => rfl
+    | some a =>
+      exact absurd ((paged_views_agree_of_inv hi hn o sp ho hs l1 l2 h1 h2 hf1 hf2 a).2.1.mpr hg) (hm a)
+  refine ⟨?_, fun a hmem => ?_⟩
+  · rw [(paged_views_agree_of_inv hi hn o sp ho hs l1 l2 h1 h2 hf1 hf2 Allowance.default).2.2.2, hnone]; rfl
+  · have := (paged_views_agree_of_inv hi hn o sp ho hs l1 l2 h1 h2 hf1 hf2 a).2.2.1.mp hmem
+    rw [hnone] at this; cases this
+
+/-- The paged listings report every pair at most once and in ascending key order (they are the sorted prefix
+listings). -/
+theorem paged_listings_once {s : State} (hn : Nodup19 s) (o sp : AddrArg)
+    (ho : o.valid = true) (hs : sp.valid = true) (l1 l2 : Option Nat) (h1 : l1 ≠ some 0) (h2 : l2 ≠ some 0)
+    {f1 f2 : Nat} (hf1 : (ownerPrefix s o.text).length + 1 ≤ f1) (hf2 : (spenderPrefix s sp.text).length + 1 ≤ f2) :
+    ((ownerListing s o l1 f1).map (·.1)).Nodup ∧ ((spenderListing s sp l2 f2).map (·.1)).Nodup := by
+  have e1 : ownerListing s o l1 f1 = Paginate.sortedEntries Paginate.strLt (ownerPrefix s o.text) :=
+    CwPlus.Props.C20.owner_allowances_complete hn.1 o ho l1 h1 hf1
+  have e2 : spenderListing s sp l2 f2 = Paginate.sortedEntries Paginate.strLt (spenderPrefix s sp.text) :=
+    CwPlus.Props.C20.spender_allowances_complete hn.2 sp hs l2 h2 hf2
+  rw [e1, e2]
+  exact ⟨Paginate.Sorted.nodupKeys Paginate.strictTotal_strLt
+      (Paginate.sortedEntries_sorted (CwPlus.Cw20.ownerPrefix_nodup hn.1 _) Paginate.strictTotal_strLt),
+    Paginate.Sorted.nodupKeys Paginate.strictTotal_strLt
+      (Paginate.sortedEntries_sorted (CwPlus.Cw20.spenderPrefix_nodup hn.2 _) Paginate.strictTotal_strLt)⟩
+
+/-! ## `migrate`: when it succeeds, and what it leaves -/
+
+/-- **C19, migration clause, applicability**: `migrate` succeeds exactly when the stored cw2 record names
+this contract and its version is not newer than the code's version (2.0.0).  In particular every pre-0.14
+token of this contract can be migrated. -/
+theorem migrate_ok_iff (s : State) :
+    (∃ s', migrate s = .ok s') ↔
+      (s.version.name = CONTRACT_NAME ∧ verLt CONTRACT_VERSION (s.version.major, s.version.minor, s.version.patch) = false) := by
+  unfold migrate
+  constructor
+  · rintro ⟨s', h⟩
+    simp at h
+    exact ⟨h.1, h.2.1⟩
+  · rintro ⟨h1, h2⟩
+    by_cases hv : verLt (s.version.major, s.version.minor, s.version.patch) (0, 14, 0) = true
+    · exact ⟨_, by simp [h1, h2, hv]; rfl⟩
+    · exact ⟨_, by simp [h1, h2, hv]; rfl⟩
+
+/-- A version below 0.14.0 is below 2.0.0: a pre-0.14 token of this contract is never refused. -/
+theorem migrate_pre014_succeeds {s : State} (hname : s.version.name = CONTRACT_NAME)
+    (hv : verLt (s.version.major, s.version.minor, s.version.patch) (0, 14, 0) = true) :
+    ∃ s', migrate s = .ok s' := by
+  rw [migrate_ok_iff]
+  refine ⟨hname, ?_⟩
+  simp [verLt, CONTRACT_VERSION] at hv ⊢
+  obtain ⟨h0, _⟩ := hv
+  rw [h0]
+  exact ⟨by simp, fun h => by cases h⟩
+
+/-- **C19, migration clause, content**: a successful migration of a pre-0.14 state with distinct keys
+neither loses nor alters an allowance: `ALLOWANCES` is untouched, the rebuilt `ALLOWANCES_SPENDER` holds under
+`(sp, o)` exactly the entry of `(o, sp)` (or, where `ALLOWANCES` has none, what was there before), and
+balances, supply and minter are untouched. -/
+theorem migrate_pre014_content {s s' : State} (hnd : AMap.NodupKeys s.allow)
+    (hv : verLt (s.version.major, s.version.minor, s.version.patch) (0, 14, 0) = true)
+    (h : migrate s = .ok s') :
+    s'.allow = s.allow ∧ s'.balances = s.balances ∧ s'.supply = s.supply ∧ s'.mint = s.mint
+    ∧ ∀ o sp, s'.allowSp.get? (sp, o) = (match s.allow.get? (o, sp) with
+        | some v => some v
+        | none => s.allowSp.get? (sp, o)) := by
+  obtain ⟨e1, ⟨_, e2⟩ | ⟨hv', _⟩⟩ := migrate_ok h
+  · refine ⟨e1, ?_, ?_, ?_, ?_⟩
+    · unfold migrate at h; simp at h; obtain ⟨_, _, h⟩ := h; rw [if_pos hv] at h; cases h; rfl
+    · unfold migrate at h; simp at h; obtain ⟨_, _, h⟩ := h; rw [if_pos hv] at h; cases h; rfl
+    · unfold migrate at h; simp at h; obtain ⟨_, _, h⟩ := h; rw [if_pos hv] at h; cases h; rfl
+    · intro o sp
+      rw [e2, get?_rebuild s.allow hnd]
+      cases s.allow.get? (o, sp) <;> rfl
+  · rw [hv] at hv'; cases hv'
+
 /-! ## Non-vacuity -/
 
 def exInst : InstMsg :=
@@ -423,5 +616,63 @@ example : (runOps exMigrated exMixed).allow.get? ("alice", "carol") = some ⟨0,
 
 example : Inv19 (runOps exMigrated exMixed) ∧ Nodup19 (runOps exMigrated exMixed) :=
   reach_inv19_migrated_mixed (s := exLegacy) rfl exLegacy_nodup (by decide) rfl exMixed
+
+/-! ### Non-vacuity of the paged-view theorems -/
+
+/-- `paged_views_agree` on the example history: owner listing paged one entry at a time, spender listing
+with the default page size; the pair alice/carol is reported by both with `{20, height 200}`, which is
+also the point query's answer. -/
+example : ("carol", ⟨20, .atHeight 200⟩) ∈ ownerListing (run exState exOps) ⟨true, "alice"⟩ (some 1)
+        ((ownerPrefix (run exState exOps) "alice").length + 1)
+    ∧ ("alice", ⟨20, .atHeight 200⟩) ∈ spenderListing (run exState exOps) ⟨true, "carol"⟩ none
+        ((spenderPrefix (run exState exOps) "carol").length + 1)
+    ∧ queryAllowance (run exState exOps) ⟨true, "alice"⟩ ⟨true, "carol"⟩ = .ok ⟨20, .atHeight 200⟩ := by
+  have h := paged_views_agree (m := exInst) rfl exOps ⟨true, "alice"⟩ ⟨true, "carol"⟩ rfl rfl (some 1) none
+    (by decide) (by decide) ⟨20, .atHeight 200⟩
+  exact ⟨h.2.1.mpr (by decide), h.2.2.1.mpr (by decide), rfl⟩
+
+/-- The paged owner listing of alice, computed: two requests of one entry each and the empty page.  The entry
+drawn to zero (dave) stays listed. -/
+example : ownerListing (run exState exOps) ⟨true, "alice"⟩ (some 1) 3
+    = [("carol", ⟨20, .atHeight 200⟩), ("dave", ⟨0, .never⟩)] := by
+  have hp : ownerPrefix (run exState exOps) "alice" = [("carol", ⟨20, .atHeight 200⟩), ("dave", ⟨0, .never⟩)] := by
+    decide
+  have hn := (reach_inv19 (m := exInst) (s := exState) rfl exOps).2
+  rw [ownerListing, CwPlus.Props.C20.owner_allowances_complete hn.1 ⟨true, "alice"⟩ rfl (some 1) (by decide)
+    (by rw [hp]; decide)]
+  show Paginate.sortedEntries Paginate.strLt (ownerPrefix (run exState exOps) "alice") = _
+  rw [hp]
+  exact Paginate.sortedEntries_of_sorted Paginate.strictTotal_strLt (by unfold Paginate.Sorted; decide)
+
+/-- `unlisted_point_default` on the example history: bob/dave was removed by a full decrease — no entry in
+either paged listing, point query `{0, never}`. -/
+example : queryAllowance (run exState exOps) ⟨true, "bob"⟩ ⟨true, "dave"⟩ = .ok Allowance.default
+    ∧ ∀ a, ("bob", a) ∉ spenderListing (run exState exOps) ⟨true, "dave"⟩ (some 2)
+        ((spenderPrefix (run exState exOps) "dave").length + 1) := by
+  obtain ⟨hi, hn⟩ := reach_inv19 (m := exInst) (s := exState) rfl exOps
+  refine unlisted_point_default hi hn ⟨true, "bob"⟩ ⟨true, "dave"⟩ rfl rfl (some 3) (some 2) (by decide) (by decide)
+    (Nat.le_refl _) (Nat.le_refl _) ?_
+  intro a hm
+  have := (paged_views_agree_of_inv hi hn ⟨true, "bob"⟩ ⟨true, "dave"⟩ rfl rfl (some 3) (some 2) (by decide)
+    (by decide) (Nat.le_refl _) (Nat.le_refl _) a).2.1.mp hm
+  have hnone : (run exState exOps).allow.get? ("bob", "dave") = none := by decide
+  rw [show (run exState exOps).allow.get? ((⟨true, "bob"⟩ : AddrArg).text, (⟨true, "dave"⟩ : AddrArg).text)
+    = none from hnone] at this
+  cases this
+
+/-- `paged_views_agree_migrated` on the legacy state followed by the mixed history. -/
+example : ("bob", ⟨31, .atHeight 101⟩) ∈ spenderListing (runOps exMigrated exMixed) ⟨true, "carol"⟩ (some 1)
+      ((spenderPrefix (runOps exMigrated exMixed) "carol").length + 1) := by
+  have h := paged_views_agree_migrated (s := exLegacy) rfl exLegacy_nodup (by decide) rfl exMixed
+    ⟨true, "bob"⟩ ⟨true, "carol"⟩ rfl rfl none (some 1) (by decide) (by decide) ⟨31, .atHeight 101⟩
+  exact h.2.2.1.mpr (by decide)
+
+/-- `migrate_ok_iff` / `migrate_pre014_succeeds` / `migrate_pre014_content` on the legacy state. -/
+example : exLegacy.version.name = CONTRACT_NAME
+    ∧ verLt CONTRACT_VERSION (exLegacy.version.major, exLegacy.version.minor, exLegacy.version.patch) = false := by decide
+example : ∃ s', migrate exLegacy = .ok s' := migrate_pre014_succeeds rfl (by decide)
+example : exMigrated.allowSp.get? ("carol", "bob") = some ⟨30, .never⟩ ∧ exMigrated.allow = exLegacy.allow := by
+  obtain ⟨h1, _, _, _, h5⟩ := migrate_pre014_content (s := exLegacy) (s' := exMigrated) exLegacy_nodup (by decide) rfl
+  exact ⟨(h5 "bob" "carol").trans (by decide), h1⟩
 
 end CwPlus.Props.C19
